@@ -169,6 +169,41 @@ theorem stepTake_acct {s s' : State} {i : Nat} {pc : TPc} {o : Obj} {add : Bool}
   all_goals try simp only [decide_eq_true_eq] at *
   acct_close h
 
+theorem stepTakePanic_acct {s s' : State} {i : Nat} {o : Obj} {add : Bool}
+    (h : s.ops[i]? = some (.take .detach o add)) (a : Acct s)
+    (hs : stepTakePanic s i o = some s') : Acct s' := by
+  have b1 := sumW_mem_le Op.permW _ _ _ h
+  have b2 := sumW_mem_le Op.objW _ _ _ h
+  have b3 := sumW_mem_le Op.sizeW _ _ _ h
+  have b4 := sumW_mem_le Op.usersW _ _ _ h
+  obtain ⟨a1, a2, a3, a4, a5⟩ := a
+  simp only [stepTakePanic, Option.some.injEq] at hs
+  subst hs
+  acct_close h
+
+theorem stepRetPanic_acct {s s' : State} {i : Nat} {o : Obj}
+    (h : s.ops[i]? = some (.ret .detach o)) (a : Acct s)
+    (hs : stepRetPanic s i o = some s') : Acct s' := by
+  have b1 := sumW_mem_le Op.permW _ _ _ h
+  have b2 := sumW_mem_le Op.objW _ _ _ h
+  have b3 := sumW_mem_le Op.sizeW _ _ _ h
+  have b4 := sumW_mem_le Op.usersW _ _ _ h
+  obtain ⟨a1, a2, a3, a4, a5⟩ := a
+  simp only [stepRetPanic, Option.some.injEq] at hs
+  subst hs
+  acct_close h
+
+/-- the guard of the panic branch of `Object::take` -/
+theorem takePanic_pc {oc : Outcome} {pc : TPc} (h : (oc == .panic && pc == .detach) = true) :
+    pc = .detach := by
+  simp only [Bool.and_eq_true, beq_iff_eq] at h
+  exact h.2
+
+theorem retPanic_pc {oc : Outcome} {pc : RPc} (h : (oc == .panic && pc == .detach) = true) :
+    pc = .detach := by
+  simp only [Bool.and_eq_true, beq_iff_eq] at h
+  exact h.2
+
 theorem stepResize_acct {s s' : State} {i n old : Nat} {isClose : Bool} {pc : ZPc}
     (h : s.ops[i]? = some (.resize n isClose pc old)) (a : Acct s)
     (hs : stepResize s i n isClose pc old = some s') : Acct s' := by
@@ -252,12 +287,18 @@ theorem stepOp_acct {s s' : State} {i : Nat} {oc : Outcome} (a : Acct s)
       simp only at hs
       split at hs
       · exact stepRet_acct h a hs
-      · simp at hs
+      · split at hs
+        · have := retPanic_pc ‹_›; subst this
+          exact stepRetPanic_acct h a hs
+        · simp at hs
     | take pc o add =>
       simp only at hs
       split at hs
       · exact stepTake_acct h a hs
-      · simp at hs
+      · split at hs
+        · have := takePanic_pc ‹_›; subst this
+          exact stepTakePanic_acct h a hs
+        · simp at hs
     | resize n c pc old =>
       simp only at hs
       split at hs
